@@ -10,7 +10,7 @@ def plan(ctx, base):
     return [(f, n * mul) for f, n in base]
 RECOVERY_KINDS = ["reset", "txp", "txf", "packet_sent", "ack_range", "packet_lost", "metrics", "space_discarded", "active_path", "packet_received", "packet_dropped", "sim_end", "panic", "stall"]
 RECOVERY_ONLY = {"txf": '"ty":"conn_close"', "packet_received": '"sp":"retry"', "packet_dropped": '"reason":"Retry'}
-GATE_KINDS = ["reset", "txp", "packet_sent", "metrics", "packet_lost", "congestion", "active_path", "mtu_updated", "panic", "stall"]
+GATE_KINDS = ["reset", "txp", "packet_sent", "metrics", "packet_lost", "congestion", "active_path", "mtu_updated", "ack_range", "panic", "stall"]
 AMP_KINDS = ["reset", "datagram_received", "datagram_sent", "rxp", "txp", "txf", "rxf", "rxd", "endpoint_datagram_dropped", "endpoint_packet_sent", "dg", "inject", "panic", "stall"]
 CID_KINDS = ["reset", "tp", "txf", "rxf", "datagram_sent", "endpoint_packet_sent", "dg", "rxd", "endpoint_datagram_dropped", "conn_closed", "panic", "stall"]
 CID_ONLY = {"txf": "_cid", "rxf": "_cid", "endpoint_datagram_dropped": "UnknownDestinationConnectionId"}
